@@ -111,6 +111,17 @@ def gen_plan(rng, uberjob, rec, ncalls, failing_frac=0.0, exc_kinds=("Exception"
             args.append(l2)
             pending_lits.append((l1, j))
             d.add(j)
+        if calls and rng.random() < 0.15:
+            # SEVERAL literals gated on the same producer, all of them arguments of this call (each survives pruning)
+            j = rng.randrange(len(calls))
+            for gi_ in range(rng.choice([2, 2, 3])):
+                gl = plan.lit("gated-%d" % gi_)
+                plan.add_dependency(calls[j], gl)
+                if rng.random() < 0.3:
+                    kwargs["g%d" % gi_] = gl
+                else:
+                    args.append(gl)
+            d.add(j)
         c = plan.call(mk(i, fk), *args, **kwargs)
         calls.append(c)
         deps.append(d)
